@@ -512,6 +512,13 @@ func genL2(t *rapid.T) Case {
 	case "manifest-put", "manifest-delete":
 		p.Subject = rapid.Bool().Draw(t, "subject")
 		p.NRef = rapid.IntRange(0, 2).Draw(t, "nref")
+		// (without mirrors: a mirror keeps listing the deleted referrer - reads through it legitimately differ)
+		if c.Op == "manifest-delete" && p.Subject && len(c.Mirrors) == 0 && rapid.Bool().Draw(t, "thenlist") {
+			p.ThenList = true
+			if p.NRef == 0 {
+				p.NRef = 1
+			}
+		}
 	case "referrer-list":
 		p.NRef = rapid.IntRange(0, 4).Draw(t, "nref")
 	case "image-copy":
